@@ -7,6 +7,7 @@
 -/
 import OttoVerif.C05.Spec
 import OttoVerif.Base.Str
+import OttoVerif.C06.Spec
 namespace OttoVerif.C05.Obj
 open OttoVerif.F64 OttoVerif.C05
 
@@ -93,18 +94,16 @@ deriving DecidableEq, Repr
 
 def isStrV : Val → Bool | .str _ => true | _ => false
 
-/-- ToString of a primitive, for the integers/specials the harness uses (number formatting is C06) -/
+/-- ToString of a primitive (§9.8).  Numbers: §9.8.1 as written in C06 (`C06.Spec.toStringNum`); how otto's
+    Value.string() relates to it is C06's subject (float64 kind: `toString_eq_spec`; integer kinds print their
+    digits, equal for |i| ≤ 2^53) – both sides of C05 share this function. -/
 def primToStr (E : Env) (v : Val) : List Nat :=
   match v with
   | .undef => OttoVerif.Str.ofString "undefined"
   | .null => OttoVerif.Str.ofString "null"
   | .bool b => OttoVerif.Str.ofString (if b then "true" else "false")
   | .str s => s
-  | _ =>
-    match toFloat E v with
-    | .nan => OttoVerif.Str.ofString "NaN"
-    | .inf s => OttoVerif.Str.ofString (if s then "-Infinity" else "Infinity")
-    | .fin s m e => OttoVerif.Str.ofString (toString (truncInt (.fin s m e)))
+  | _ => OttoVerif.C06.Spec.toStringNum (toFloat E v)
 
 /-- MODEL: a binary or comparison operator applied to two resolved operand values -/
 def apply (E : Env) (op : Op) (x y : OV) : R Val :=
